@@ -402,6 +402,20 @@ func runC02() {
 				c.value(seqx.Field{M: "Stringer", Key: "key", Val: seqx.Str(s)}, nil, strEPs[:2])
 			}
 		})
+		// every single byte value (the escape tables have one entry per control byte, the hex table one per nibble),
+		// alone and between two letters, as text, key, []byte and Hex; and all 256 of them in one Hex / Bytes value
+		all := make([]byte, 256)
+		for b := 0; b < 256; b++ {
+			all[b] = byte(b)
+			for _, s := range []string{string([]byte{byte(b)}), "a" + string([]byte{byte(b)}) + "b"} {
+				c.value(seqx.Field{M: "Str", Key: "key", Val: s}, nil, strEPs)
+				c.value(seqx.Field{M: "Str", Key: s, Val: "v"}, nil, strEPs[:2])
+				c.value(seqx.Field{M: "Bytes", Key: "key", Val: []byte(s)}, nil, strEPs[:3])
+				c.value(seqx.Field{M: "Hex", Key: "key", Val: []byte(s)}, nil, strEPs[:3])
+			}
+		}
+		c.value(seqx.Field{M: "Hex", Key: "key", Val: all}, nil, strEPs)
+		c.value(seqx.Field{M: "Bytes", Key: "key", Val: all}, nil, strEPs)
 		// Part E: times and durations under every format / unit
 		times := []time.Time{seqx.T0, seqx.TEp, seqx.TFix, seqx.TNeg, seqx.TNow, time.Unix(0, math.MaxInt64).UTC(), time.Unix(0, math.MinInt64).UTC(),
 			time.Unix(1, -1).UTC(), time.Date(2262, 4, 11, 23, 47, 16, 854775807, time.UTC), time.Date(1677, 9, 21, 0, 12, 43, 145224192, time.UTC),
